@@ -2218,10 +2218,12 @@ func c07VisitRecurse(c *Ctx) {
 			continue
 		}
 		var site *ssa.Call
+		siteBlocks := map[*ssa.BasicBlock]bool{}
 		for _, b := range fn.Blocks {
 			for _, ins := range b.Instrs {
 				if call, ok := ins.(*ssa.Call); ok && call.Call.IsInvoke() && call.Call.Method.Name() == "visitSameBodyChildren" && call.Call.Value == ssa.Value(fn.Params[0]) {
 					site = call
+					siteBlocks[b] = true
 				}
 			}
 		}
@@ -2235,7 +2237,7 @@ func c07VisitRecurse(c *Ctx) {
 		seen := map[*ssa.BasicBlock]bool{}
 		var escapes func(b *ssa.BasicBlock) bool
 		escapes = func(b *ssa.BasicBlock) bool {
-			if b == site.Block() || seen[b] {
+			if siteBlocks[b] || seen[b] {
 				return false
 			}
 			seen[b] = true
